@@ -195,24 +195,24 @@ func decodeEdit(data []byte) (Edit, error) {
 		// | CreatedAt (v)  | ValueSize (v)  | Ingest (1B)    |
 		// +----------------+----------------+
 		// (v) denotes Uvarint, (lv) denotes Length-prefixed Bytes (Uvarint length + bytes)
-		level, n := binary.Uvarint(data[pos:])
+		level, n := uvarintAt(data, pos)
 		pos += n
-		fileID, n := binary.Uvarint(data[pos:])
+		fileID, n := uvarintAt(data, pos)
 		pos += n
-		size, n := binary.Uvarint(data[pos:])
+		size, n := uvarintAt(data, pos)
 		pos += n
-		smallest, n := readBytes(data[pos:])
+		smallest, n := readBytesAt(data, pos)
 		pos += n
-		largest, n := readBytes(data[pos:])
+		largest, n := readBytesAt(data, pos)
 		pos += n
-		created, n := binary.Uvarint(data[pos:])
+		created, n := uvarintAt(data, pos)
 		pos += n
 		var valueSize uint64
 		if pos <= len(data) {
 			if pos == len(data) {
 				valueSize = 0
 			} else {
-				vs, consumed := binary.Uvarint(data[pos:])
+				vs, consumed := uvarintAt(data, pos)
 				pos += consumed
 				valueSize = vs
 			}
@@ -241,9 +241,9 @@ func decodeEdit(data []byte) (Edit, error) {
 		// | LogSegment (v) | LogOffset (v)  |
 		// +----------------+----------------+
 		// (v) denotes Uvarint
-		seg, n := binary.Uvarint(data[pos:])
+		seg, n := uvarintAt(data, pos)
 		pos += n
-		off, n := binary.Uvarint(data[pos:])
+		off, n := uvarintAt(data, pos)
 		pos += n
 		if pos > len(data) {
 			return Edit{}, fmt.Errorf("manifest log pointer truncated")
@@ -257,11 +257,11 @@ func decodeEdit(data []byte) (Edit, error) {
 		// +----------------+----------------+----------------+
 		// (v) denotes Uvarint
 		if pos < len(data) {
-			bucket64, n := binary.Uvarint(data[pos:])
+			bucket64, n := uvarintAt(data, pos)
 			pos += n
-			fid64, n := binary.Uvarint(data[pos:])
+			fid64, n := uvarintAt(data, pos)
 			pos += n
-			offset, n := binary.Uvarint(data[pos:])
+			offset, n := uvarintAt(data, pos)
 			pos += n
 			if pos > len(data) {
 				return Edit{}, fmt.Errorf("manifest value log head truncated")
@@ -280,9 +280,9 @@ func decodeEdit(data []byte) (Edit, error) {
 		// +----------------+----------------+
 		// (v) denotes Uvarint
 		if pos < len(data) {
-			bucket64, n := binary.Uvarint(data[pos:])
+			bucket64, n := uvarintAt(data, pos)
 			pos += n
-			fid64, n := binary.Uvarint(data[pos:])
+			fid64, n := uvarintAt(data, pos)
 			pos += n
 			if pos > len(data) {
 				return Edit{}, fmt.Errorf("manifest value log delete truncated")
@@ -299,11 +299,11 @@ func decodeEdit(data []byte) (Edit, error) {
 		// +----------------+----------------+----------------+----------+
 		// (v) denotes Uvarint
 		if pos < len(data) {
-			bucket64, n := binary.Uvarint(data[pos:])
+			bucket64, n := uvarintAt(data, pos)
 			pos += n
-			fid64, n := binary.Uvarint(data[pos:])
+			fid64, n := uvarintAt(data, pos)
 			pos += n
-			offset, n := binary.Uvarint(data[pos:])
+			offset, n := uvarintAt(data, pos)
 			pos += n
 			if pos > len(data) {
 				return Edit{}, fmt.Errorf("manifest value log update truncated")
@@ -330,21 +330,21 @@ func decodeEdit(data []byte) (Edit, error) {
 		// +-----------------+-----------------+-----------------+-----------------+
 		// (v) denotes Uvarint
 		if pos <= len(data) {
-			groupID, n := binary.Uvarint(data[pos:])
+			groupID, n := uvarintAt(data, pos)
 			pos += n
-			seg, n := binary.Uvarint(data[pos:])
+			seg, n := uvarintAt(data, pos)
 			pos += n
-			off, n := binary.Uvarint(data[pos:])
+			off, n := uvarintAt(data, pos)
 			pos += n
-			appliedIdx, n := binary.Uvarint(data[pos:])
+			appliedIdx, n := uvarintAt(data, pos)
 			pos += n
-			appliedTerm, n := binary.Uvarint(data[pos:])
+			appliedTerm, n := uvarintAt(data, pos)
 			pos += n
-			committed, n := binary.Uvarint(data[pos:])
+			committed, n := uvarintAt(data, pos)
 			pos += n
-			snapIdx, n := binary.Uvarint(data[pos:])
+			snapIdx, n := uvarintAt(data, pos)
 			pos += n
-			snapTerm, n := binary.Uvarint(data[pos:])
+			snapTerm, n := uvarintAt(data, pos)
 			pos += n
 			if pos > len(data) {
 				return Edit{}, fmt.Errorf("manifest raft pointer truncated")
@@ -354,28 +354,28 @@ func decodeEdit(data []byte) (Edit, error) {
 			var segmentIndex uint64
 			var truncatedOffset uint64
 			if pos < len(data) {
-				truncatedIdx, n = binary.Uvarint(data[pos:])
+				truncatedIdx, n = uvarintAt(data, pos)
 				pos += n
 				if pos > len(data) {
 					return Edit{}, fmt.Errorf("manifest raft pointer truncated index overflow")
 				}
 			}
 			if pos < len(data) {
-				truncatedTerm, n = binary.Uvarint(data[pos:])
+				truncatedTerm, n = uvarintAt(data, pos)
 				pos += n
 				if pos > len(data) {
 					return Edit{}, fmt.Errorf("manifest raft pointer truncated term overflow")
 				}
 			}
 			if pos < len(data) {
-				segmentIndex, n = binary.Uvarint(data[pos:])
+				segmentIndex, n = uvarintAt(data, pos)
 				pos += n
 				if pos > len(data) {
 					return Edit{}, fmt.Errorf("manifest raft pointer segment index overflow")
 				}
 			}
 			if pos < len(data) {
-				truncatedOffset, n = binary.Uvarint(data[pos:])
+				truncatedOffset, n = uvarintAt(data, pos)
 				pos += n
 				if pos > len(data) {
 					return Edit{}, fmt.Errorf("manifest raft pointer truncated offset overflow")
@@ -405,7 +405,7 @@ func decodeEdit(data []byte) (Edit, error) {
 		// +-----------------------+------------+----------------+-------------------+------------------+
 		// (v) denotes Uvarint, (lv) denotes Length-prefixed Bytes (Uvarint length + bytes)
 		if pos <= len(data) {
-			regionID, n := binary.Uvarint(data[pos:])
+			regionID, n := uvarintAt(data, pos)
 			pos += n
 			if pos > len(data) {
 				return Edit{}, fmt.Errorf("manifest region edit truncated after id")
@@ -422,13 +422,13 @@ func decodeEdit(data []byte) (Edit, error) {
 				}
 				break
 			}
-			start, n := readBytes(data[pos:])
+			start, n := readBytesAt(data, pos)
 			pos += n
-			end, n := readBytes(data[pos:])
+			end, n := readBytesAt(data, pos)
 			pos += n
-			version, n := binary.Uvarint(data[pos:])
+			version, n := uvarintAt(data, pos)
 			pos += n
-			confVer, n := binary.Uvarint(data[pos:])
+			confVer, n := uvarintAt(data, pos)
 			pos += n
 			if pos > len(data) {
 				return Edit{}, fmt.Errorf("manifest region edit truncated epoch")
@@ -440,17 +440,20 @@ func decodeEdit(data []byte) (Edit, error) {
 			}
 			peersCount := uint64(0)
 			if pos < len(data) {
-				peersCount, n = binary.Uvarint(data[pos:])
+				peersCount, n = uvarintAt(data, pos)
 				pos += n
 			}
 			if pos > len(data) {
 				return Edit{}, fmt.Errorf("manifest region edit truncated peer count")
 			}
+			if peersCount > uint64(len(data)-pos) {
+				return Edit{}, fmt.Errorf("manifest region edit peer count exceeds payload")
+			}
 			peers := make([]PeerMeta, 0, peersCount)
 			for i := uint64(0); i < peersCount; i++ {
-				storeID, n := binary.Uvarint(data[pos:])
+				storeID, n := uvarintAt(data, pos)
 				pos += n
-				peerID, n := binary.Uvarint(data[pos:])
+				peerID, n := uvarintAt(data, pos)
 				pos += n
 				if pos > len(data) {
 					return Edit{}, fmt.Errorf("manifest region edit truncated peer meta")
@@ -482,10 +485,31 @@ func appendBytes(dst []byte, b []byte) []byte {
 
 func readBytes(data []byte) ([]byte, int) {
 	length, n := binary.Uvarint(data)
-	pos := n
-	end := pos + int(length)
-	if n <= 0 || end > len(data) {
+	if n <= 0 || length > uint64(len(data)-n) {
 		return nil, len(data)
 	}
-	return data[pos:end], n + int(length)
+	return data[n : n+int(length)], n + int(length)
+}
+
+// readBytesAt is readBytes on data[pos:], tolerating a position past the end.
+func readBytesAt(data []byte, pos int) ([]byte, int) {
+	if pos > len(data) {
+		return nil, 0
+	}
+	return readBytes(data[pos:])
+}
+
+// uvarintAt decodes a uvarint at data[pos:]. Reading at or past the end yields
+// (0, 0) like binary.Uvarint on an empty buffer. A truncated or overflowing
+// varint returns a width that moves pos past the end of data, so that the
+// callers' truncation checks reject the edit instead of slicing out of range.
+func uvarintAt(data []byte, pos int) (uint64, int) {
+	if pos >= len(data) {
+		return 0, 0
+	}
+	v, n := binary.Uvarint(data[pos:])
+	if n <= 0 {
+		return 0, len(data) - pos + 1
+	}
+	return v, n
 }
